@@ -3,11 +3,12 @@
 use std::ops::Range;
 use std::time::{Duration, Instant};
 
+use tyv_model::families;
 use tyv_model::model::{self, Model, Size};
 use tyv_model::oracles;
-use tyv_model::report::{self, Outcome};
+use tyv_model::report::{self, KnownFinding, Outcome};
 use tyv_model::subject::{Cfg, Refused, Subject};
-use tyv_model::sweep::{self, CfgPolicy, Level, Oracle, SweepSpec};
+use tyv_model::sweep::{self, CfgPolicy, ExtraLevel, Level, Oracle, SpineFilter, SweepSpec, Widths};
 use typst_syntax::Source;
 use typstyle_core::{Config, Typstyle};
 
@@ -17,11 +18,14 @@ fn to_config(c: &Cfg) -> Config {
     Config { max_width: c.max_width, tab_spaces: c.tab_spaces, reorder_import_items: c.reorder, ..Default::default() }
 }
 
+fn fixed_id() -> typst_syntax::FileId {
+    static ID: std::sync::OnceLock<typst_syntax::FileId> = std::sync::OnceLock::new();
+    *ID.get_or_init(|| Source::detached("").id())
+}
+
 impl Subject for Real {
     fn format(&self, text: &str, cfg: &Cfg) -> Result<String, Refused> {
-        static ID: std::sync::OnceLock<typst_syntax::FileId> = std::sync::OnceLock::new();
-        let id = *ID.get_or_init(|| Source::detached("").id());
-        let src = Source::new(id, text.to_string());
+        let src = Source::new(fixed_id(), text.to_string());
         Typstyle::new(to_config(cfg)).format_source(&src).map_err(|_| Refused)
     }
     fn format_content(&self, text: &str, cfg: &Cfg) -> Result<String, Refused> {
@@ -34,31 +38,48 @@ impl Subject for Real {
         let src = Source::detached(text);
         Typstyle::new(to_config(cfg)).format_source_range(&src, range).map_err(|_| Refused)
     }
+    fn format_ranges(&self, text: &str, ranges: &[Range<usize>], cfg: &Cfg) -> Vec<Result<Result<(Range<usize>, String), Refused>, String>> {
+        let src = Source::new(fixed_id(), text.to_string());
+        let t = Typstyle::new(to_config(cfg));
+        ranges
+            .iter()
+            .map(|r| tyv_model::subject::guarded(|| t.format_source_range(&src, r.clone()).map_err(|_| Refused)))
+            .collect()
+    }
 }
 
 fn main() {
     std::panic::set_hook(Box::new(|_| {}));
     let args: Vec<String> = std::env::args().collect();
     if args.len() < 2 {
-        eprintln!("usage: tyv <Cxx> [quick|thorough] | tyv triage <Cxx> [tier] | tyv replay <file>");
+        eprintln!("usage: tyv <Cxx> [quick|thorough] | tyv triage <Cxx> [tier] | tyv plan <Cxx> [tier] | tyv replay <file>");
         std::process::exit(2);
     }
     let code = match args[1].as_str() {
-        "triage" => run_check(&args[2], args.get(3).map(|s| s.as_str()), true),
+        "triage" => run_check(&args[2], args.get(3).map(|s| s.as_str()), Mode::Triage),
+        "plan" => run_check(&args[2], args.get(3).map(|s| s.as_str()), Mode::Plan),
+        "replay" => replay(&args[2]),
         "show" => {
             show(&args[2..]);
             0
         }
-        id => run_check(id, args.get(2).map(|s| s.as_str()), false),
+        id => run_check(id, args.get(2).map(|s| s.as_str()), Mode::Check),
     };
     std::process::exit(code);
 }
 
+#[derive(PartialEq, Clone, Copy)]
+enum Mode {
+    Check,
+    Triage,
+    Plan,
+}
+
 fn show(args: &[String]) {
     // tyv show <ctx> <k>  : print instantiated skeletons (debug aid)
-    let m = Model::new();
+    let m = Model::with_ugly();
     let k: usize = args.get(1).and_then(|s| s.parse().ok()).unwrap_or(1);
-    let sks = sweep::skeletons(&m, &[args[0].as_str()], &[k], &[Size::Short]);
+    let sks = sweep::skeletons_f(&m, &[args[0].as_str()], &[k], &[Size::Short], SpineFilter::Clean);
     let mut bad = 0;
     for sk in &sks {
         let t = m.instantiate(sk);
@@ -71,41 +92,337 @@ fn show(args: &[String]) {
     println!("{} skeletons, {} ill-formed", sks.len(), bad);
 }
 
-fn run_check(id: &str, tier: Option<&str>, triage: bool) -> i32 {
+const MAIN_CTX: [&str; 10] = ["doc", "hash", "let", "codeblock", "arg", "math_i", "math_b", "mixed", "item", "content_ml"];
+const MORE_CTX: [&str; 6] = ["nested_code", "math_hash", "heading", "strong", "pattern", "param"];
+const CORE_CTX: [&str; 5] = ["doc", "hash", "let", "codeblock", "math_i"];
+
+fn all_ctx() -> Vec<&'static str> {
+    MAIN_CTX.iter().chain(MORE_CTX.iter()).copied().collect()
+}
+
+struct Plan {
+    oracle: Box<dyn Oracle>,
+    model: Model,
+    levels: Vec<Level>,
+    extra: Vec<ExtraLevel>,
+    policy: CfgPolicy,
+    assumptions: Vec<String>,
+}
+
+fn lvl(name: &str, skeletons: Vec<model::Skeleton>, dev1: &[&str], dev2: &[&str]) -> Level {
+    Level { name: name.into(), skeletons, dev1: model::forms(dev1), dev2: model::forms(dev2) }
+}
+
+/// The standard full-model levels (C01, C03, C04, C11 and, restricted by `admits`, C06/C09/C10).
+fn full_levels(m: &Model, thorough: bool, forms1: &[&str], forms_k2: &[&str], forms2: &[&str]) -> Vec<Level> {
+    let all = all_ctx();
+    let mut v = vec![
+        lvl("ctx*/k<=1/dev<=1", sweep::skeletons(m, &all, &[0, 1], &[Size::Short, Size::Medium]), forms1, &[]),
+        lvl("main/k2/dev0", sweep::skeletons(m, &MAIN_CTX, &[2], &[Size::Short]), &[], &[]),
+        lvl("hash,let,math/k2/dev1", sweep::skeletons(m, &["hash", "let", "math_i"], &[2], &[Size::Short]), &forms_k2[..forms_k2.len().min(if thorough { 99 } else { 7 })], &[]),
+    ];
+    if thorough {
+        v.push(lvl("ctx*/k<=1/dev2", sweep::skeletons(m, &all, &[1], &[Size::Short]), forms2, forms2));
+        v.push(lvl("ctx*/k2/dev1", sweep::skeletons(m, &all, &[2], &[Size::Short]), forms1, &[]));
+        v.push(lvl("ctx*/k<=1/long", sweep::skeletons(m, &all, &[1], &[Size::AllMid, Size::Long]), forms1, &[]));
+        v.push(lvl("main/k2/medium", sweep::skeletons(m, &MAIN_CTX, &[2], &[Size::Medium]), forms_k2, &[]));
+        v.push(lvl(
+            "core/k3-leaf/dev0",
+            sweep::skeletons_f(m, &CORE_CTX, &[3], &[Size::Short], SpineFilter::LeafLast),
+            &[],
+            &[],
+        ));
+        v.push(lvl("core/k3/dev0", sweep::skeletons(m, &CORE_CTX, &[3], &[Size::Short]), &[], &[]));
+    }
+    v
+}
+
+fn literal_wrappers(m: &Model, ks: &[usize]) -> Vec<(String, String)> {
+    // every hole of every context spine, as text with a \u{1} placeholder: instantiate the skeleton
+    // with a marker atom, then cut the marker out
+    let mut res = vec![];
+    let marker = "a"; // the first E atom of a skeleton is always `a`
+    for sk in sweep::skeletons(m, &["hash", "let", "codeblock", "arg", "mixed", "nested_code", "math_hash", "content_ml"], ks, &[Size::Short]) {
+        let t = m.instantiate(&sk);
+        // replace the first standalone `a` token that is an identifier leaf
+        let root = tyv_model::syntax::parse(&t);
+        if root.erroneous() {
+            continue;
+        }
+        let mut pos = None;
+        fn find(n: &typst_syntax::LinkedNode, marker: &str, pos: &mut Option<Range<usize>>) {
+            if pos.is_some() {
+                return;
+            }
+            if n.kind() == typst_syntax::SyntaxKind::Ident && n.text() == marker {
+                *pos = Some(n.range());
+                return;
+            }
+            for c in n.children() {
+                find(&c, marker, pos);
+            }
+        }
+        find(&typst_syntax::LinkedNode::new(&root), marker, &mut pos);
+        if let Some(r) = pos {
+            let w = format!("{}\u{1}{}", &t[..r.start], &t[r.end..]);
+            res.push((m.describe(&sk), w));
+        }
+    }
+    res.sort();
+    res.dedup_by(|a, b| a.1 == b.1);
+    res
+}
+
+fn plan_for(id: &str, thorough: bool) -> Option<Plan> {
+    let m = Model::new();
+    let std_policy = |tabs_sparse: &[usize]| CfgPolicy::standard(if thorough { 400 } else { 160 }, &[2], tabs_sparse);
+    let sparse: &[usize] = if thorough { &[1, 3, 4, 8] } else { &[4] };
+    let two_uses = "max_width is read in exactly two places of typstyle-core (doc.pretty(max_width) and Config::chain_width); for w >= W*(x) = max(longest line of F_inf(x), ceil(|x|/0.6)+2) the output equals F_inf(x), so [0, W*+3] plus the fixed extras covers all max_width >= 0 for that input".to_string();
+    let wrapper = "sweeps call Typstyle::format_source on Source::new(fixed FileId, text) (what format_content does after Source::detached) to avoid typst_syntax's global FileId interner lock; the equality with format_content is re-checked once per input".to_string();
+    let p = match id {
+        "C01" => Plan {
+            oracle: Box::new(oracles::tree::C01),
+            levels: full_levels(&m, thorough, model::FORMS_ALL, model::FORMS_QUICK, &["nl", "bc", "lc", "sp", "none"]),
+            extra: vec![],
+            policy: std_policy(sparse),
+            assumptions: vec![two_uses, wrapper, "typst_syntax 0.13.1 is the reference parser (same version as the subject's)".into()],
+            model: m,
+        },
+        "C03" => Plan {
+            oracle: Box::new(oracles::basic::C03),
+            levels: full_levels(&m, thorough, model::FORMS_ALL, model::FORMS_QUICK, &["nl", "nl2", "bc", "lc", "none"]),
+            extra: vec![],
+            policy: std_policy(sparse),
+            assumptions: vec![two_uses, wrapper],
+            model: m,
+        },
+        "C04" => Plan {
+            oracle: Box::new(oracles::basic::C04),
+            levels: full_levels(&m, thorough, model::FORMS_ALL, model::FORMS_QUICK, &["lc", "bc", "nl", "none"]),
+            extra: vec![],
+            policy: std_policy(sparse),
+            assumptions: vec![two_uses, wrapper],
+            model: m,
+        },
+        "C06" => Plan {
+            oracle: Box::new(oracles::census::C06),
+            levels: {
+                let all = all_ctx();
+                let mut v = vec![
+                    lvl("ctx*/k<=1/1 comment", sweep::skeletons(&m, &all, &[0, 1], &[Size::Short, Size::Medium]), model::FORMS_COMMENT, &[]),
+                    lvl("main/k2/1 comment", sweep::skeletons(&m, &MAIN_CTX, &[2], &[Size::Short]), &["bc", "lc", "nl_lc", "bc_ml", "bc_sp"], &[]),
+                ];
+                if thorough {
+                    v.push(lvl("ctx*/k<=1/2 comments", sweep::skeletons(&m, &all, &[1], &[Size::Short]), model::FORMS_COMMENT, &["bc", "lc", "nl_lc", "bc_sp"]));
+                    v.push(lvl("ctx*/k2/1 comment", sweep::skeletons(&m, &all, &[2], &[Size::Short]), model::FORMS_COMMENT, &[]));
+                    v.push(lvl("core/k3-leaf/1 comment", sweep::skeletons_f(&m, &CORE_CTX, &[3], &[Size::Short], SpineFilter::LeafLast), &["bc", "lc"], &[]));
+                }
+                v
+            },
+            extra: vec![],
+            policy: std_policy(sparse),
+            assumptions: vec![two_uses, wrapper],
+            model: m,
+        },
+        "C07" => {
+            let m = Model::with_ugly();
+            let all = all_ctx();
+            let mut levels = vec![
+                lvl("ctx*/k<=2 ugly payload/directive at every gap", sweep::skeletons_f(&m, &all, &[1, 2], &[Size::Short], SpineFilter::UglyLast), &["off_bc", "off_lc"], &[]),
+                lvl("ctx*/k<=1 clean/directive at every gap", sweep::skeletons(&m, &all, &[1], &[Size::Short]), &["off_bc", "off_lc"], &[]),
+            ];
+            if thorough {
+                levels.push(lvl("main/k3 ugly payload", sweep::skeletons_f(&m, &MAIN_CTX, &[3], &[Size::Short], SpineFilter::UglyLast), &["off_bc", "off_lc"], &[]));
+                levels.push(lvl("main/k2 clean", sweep::skeletons(&m, &MAIN_CTX, &[2], &[Size::Short]), &["off_bc", "off_lc"], &[]));
+            }
+            Plan { oracle: Box::new(oracles::layout::C07), levels, extra: vec![], policy: std_policy(sparse), assumptions: vec![two_uses, wrapper], model: m }
+        }
+        "C08" => Plan {
+            oracle: Box::new(oracles::ws::C08),
+            levels: {
+                let mk = ["doc", "item", "content_ml", "heading", "strong", "mixed"];
+                let mut v = vec![lvl("markup ctx/k<=2/dev<=1", sweep::skeletons(&m, &mk, &[1, 2], &[Size::Short]), model::FORMS_QUICK, &[])];
+                if thorough {
+                    v.push(lvl("markup ctx/k<=2/all forms", sweep::skeletons(&m, &mk, &[1, 2], &[Size::Short, Size::Medium]), model::FORMS_ALL, &[]));
+                    v.push(lvl("markup ctx/k3/dev0", sweep::skeletons(&m, &["doc", "content_ml", "item"], &[3], &[Size::Short]), &[], &[]));
+                }
+                v
+            },
+            extra: vec![ExtraLevel { name: format!("prose sequences <= {}", if thorough { 3 } else { 2 }), inputs: families::prose(if thorough { 3 } else { 2 }, true) }],
+            policy: std_policy(sparse),
+            assumptions: vec![two_uses, wrapper],
+            model: m,
+        },
+        "C09" => Plan {
+            oracle: Box::new(oracles::ws::C09),
+            levels: {
+                let mk = ["math_i", "math_b", "math_hash", "let", "arg", "doc"];
+                let mut v = vec![lvl("math ctx/k<=2/dev<=1", sweep::skeletons(&m, &mk, &[1, 2], &[Size::Short]), model::FORMS_QUICK, &[])];
+                if thorough {
+                    v.push(lvl("math ctx/k<=2/all forms", sweep::skeletons(&m, &mk, &[1, 2], &[Size::Short, Size::Medium]), model::FORMS_ALL, &[]));
+                    v.push(lvl("math ctx/k3/dev0", sweep::skeletons(&m, &["math_i", "math_b"], &[3], &[Size::Short]), &[], &[]));
+                }
+                v
+            },
+            extra: vec![ExtraLevel { name: format!("math sequences <= {}", if thorough { 3 } else { 2 }), inputs: families::math(if thorough { 3 } else { 2 }) }],
+            policy: std_policy(sparse),
+            assumptions: vec![two_uses, wrapper],
+            model: m,
+        },
+        "C10" => {
+            let wr = literal_wrappers(&m, if thorough { &[0, 1, 2] } else { &[0, 1] });
+            let wr2 = if thorough { literal_wrappers(&m, &[3]).into_iter().step_by(97).collect() } else { vec![] };
+            let mut extra = vec![
+                ExtraLevel { name: "literal alphabet x context spines".into(), inputs: families::literals_in(&wr) },
+                ExtraLevel { name: "markup literal alphabet x markup contexts".into(), inputs: families::markup_literals() },
+            ];
+            if thorough {
+                extra.push(ExtraLevel { name: "literal alphabet x every 97th k=3 spine".into(), inputs: families::literals_in(&wr2) });
+            }
+            Plan {
+                oracle: Box::new(oracles::census::C10),
+                levels: vec![lvl("ctx*/k<=1/dev<=1", sweep::skeletons(&m, &all_ctx(), &[0, 1], &[Size::Short]), model::FORMS_QUICK, &[])],
+                extra,
+                policy: std_policy(sparse),
+                assumptions: vec![two_uses, wrapper],
+                model: m,
+            }
+        }
+        "C11" => Plan {
+            oracle: Box::new(oracles::basic::C11),
+            levels: full_levels(&m, thorough, model::FORMS_ALL, model::FORMS_QUICK, &["sp", "tab", "nl", "bc_sp", "lc_sp"]),
+            extra: vec![ExtraLevel { name: "degenerate documents".into(), inputs: families::degenerate() }],
+            policy: std_policy(sparse),
+            assumptions: vec![two_uses, wrapper],
+            model: m,
+        },
+        "C12" => Plan {
+            oracle: Box::new(oracles::layout::C12),
+            levels: {
+                let lf = ["nl", "nl2", "lc", "nl_lc", "bc_ml", "nl_sp", "bc_star"];
+                let all = all_ctx();
+                let mut v = vec![
+                    lvl("ctx*/k<=1/linefeed dev<=1", sweep::skeletons(&m, &all, &[0, 1], &[Size::Short]), &lf, &[]),
+                    lvl("main/k2/linefeed dev<=1", sweep::skeletons(&m, &MAIN_CTX, &[2], &[Size::Short]), &["nl", "lc", "bc_ml"], &[]),
+                ];
+                if thorough {
+                    v.push(lvl("ctx*/k2/linefeed dev<=1", sweep::skeletons(&m, &all, &[2], &[Size::Short]), &lf, &[]));
+                    v.push(lvl("core/k3/dev0", sweep::skeletons(&m, &CORE_CTX, &[3], &[Size::Short]), &[], &[]));
+                    v.push(lvl("core/k3-leaf/nl", sweep::skeletons_f(&m, &CORE_CTX, &[3], &[Size::Short], SpineFilter::LeafLast), &["nl"], &[]));
+                }
+                v
+            },
+            extra: vec![],
+            policy: CfgPolicy {
+                widths: Widths::HugeThenAll { cap: 200 },
+                tabs_full: vec![1, 2, 3, 4, 5, 6, 7, 8],
+                tabs_sparse: vec![3, 5, 7],
+                reorder: vec![false],
+            },
+            assumptions: vec![wrapper, "no-wrap width = 10^4 * (1 + |x|), beyond any line the formatter can produce for x".into()],
+            model: m,
+        },
+        "C13" => {
+            let all = all_ctx();
+            let mut levels = vec![lvl("ctx*/k<=1/dev<=1", sweep::skeletons(&m, &all, &[0, 1], &[Size::Short]), model::FORMS_QUICK, &[])];
+            if thorough {
+                levels.push(lvl("ctx*/k<=1/all forms", sweep::skeletons(&m, &all, &[0, 1], &[Size::Short]), model::FORMS_ALL, &[]));
+                levels.push(lvl("main/k2/dev0", sweep::skeletons(&m, &MAIN_CTX, &[2], &[Size::Short]), &[], &[]));
+                levels.push(lvl("hash,let,doc/k2/dev1", sweep::skeletons(&m, &["hash", "let", "doc"], &[2], &[Size::Short]), &["nl", "lc", "bc", "none"], &[]));
+            }
+            // single-character damages of the canonical instances
+            let mut damaged = vec![];
+            for sk in sweep::skeletons(&m, &all, &[0, 1], &[Size::Short]) {
+                let t = m.instantiate(&sk);
+                let d = m.describe(&sk);
+                let idx: Vec<usize> = t.char_indices().map(|x| x.0).collect();
+                for (n, &i) in idx.iter().enumerate() {
+                    let c = t[i..].chars().next().unwrap();
+                    let end = i + c.len_utf8();
+                    damaged.push((format!("damage:delete@{n}:{d}"), format!("{}{}", &t[..i], &t[end..])));
+                    damaged.push((format!("damage:dup@{n}:{d}"), format!("{}{}{}", &t[..end], c, &t[end..])));
+                    if thorough {
+                        for r in ['(', ')', '[', ']', '{', '}', '$', '"', '#', '*'] {
+                            damaged.push((format!("damage:replace:{r}@{n}:{d}"), format!("{}{}{}", &t[..i], r, &t[end..])));
+                        }
+                    }
+                }
+            }
+            damaged.sort_by(|a, b| a.1.cmp(&b.1));
+            damaged.dedup_by(|a, b| a.1 == b.1);
+            Plan {
+                oracle: Box::new(oracles::range::C13),
+                levels,
+                extra: vec![ExtraLevel { name: "single-character damages".into(), inputs: damaged }],
+                policy: CfgPolicy { widths: Widths::Fixed(vec![80, 0]), tabs_full: vec![2], tabs_sparse: vec![], reorder: vec![false] },
+                assumptions: vec![
+                    "format_source_range is called on Source::new(fixed FileId, text); one Source per (input, configuration)".into(),
+                    "configurations: (w=80,tab=2), (w=0,tab=2); thorough adds tab=4".into(),
+                ],
+                model: m,
+            }
+        }
+        "C19" => Plan {
+            oracle: Box::new(oracles::imports::C19),
+            levels: vec![lvl(
+                "import productions in context/dev<=1",
+                {
+                    let mut s = vec![];
+                    for sk in sweep::skeletons(&m, &["hash", "codeblock", "mixed", "nested_code", "content_ml"], &[1, 2], &[Size::Short]) {
+                        let last = sk.spine.last().map(|p| m.prods[p.0].name).unwrap_or("");
+                        if last.starts_with("import") {
+                            s.push(sk);
+                        }
+                    }
+                    s
+                },
+                model::FORMS_ALL,
+                if thorough { &["bc", "lc", "nl", "none"] } else { &[] },
+            )],
+            extra: vec![ExtraLevel {
+                name: format!("import statements: item sequences <= {}", if thorough { 4 } else { 3 }),
+                inputs: families::imports(
+                    if thorough { 4 } else { 3 },
+                    &[("bc", "/*c*/"), ("lc", "//c\n"), ("bc_sp", " /*c*/ "), ("nl", "\n")],
+                ),
+            }],
+            policy: CfgPolicy { widths: Widths::All { cap: 160 }, tabs_full: vec![2], tabs_sparse: vec![], reorder: vec![false, true] },
+            assumptions: vec![two_uses, wrapper],
+            model: m,
+        },
+        _ => return None,
+    };
+    Some(p)
+}
+
+fn caps(thorough: bool) -> Duration {
+    let env = std::env::var("VERIF_WALL_CAP_S").ok().and_then(|s| s.parse::<u64>().ok());
+    Duration::from_secs(env.unwrap_or(if thorough { 35 * 60 } else { 50 }))
+}
+
+fn run_check(id: &str, tier: Option<&str>, mode: Mode) -> i32 {
     let tier = report::tier_from_env(tier);
     let seed = report::seed_from_env();
     let start = Instant::now();
-    let model = Model::new();
-    let subject = Real;
     let thorough = tier == "thorough";
     let threads = std::thread::available_parallelism().map(|n| n.get()).unwrap_or(8);
-    let wall_cap = Duration::from_secs(if thorough { 35 * 60 } else { 50 });
-
-    let oracle: Box<dyn Oracle> = match id {
-        "C03" => Box::new(oracles::basic::C03),
-        "C04" => Box::new(oracles::basic::C04),
-        "C11" => Box::new(oracles::basic::C11),
-        _ => {
-            eprintln!("unknown check {id}");
-            return 2;
+    let Some(plan) = plan_for(id, thorough) else {
+        eprintln!("MACHINERY: unknown check {id}");
+        return 2;
+    };
+    if mode == Mode::Plan {
+        for l in &plan.levels {
+            println!("level {:40} skeletons={:8} dev1={} dev2={}", l.name, l.skeletons.len(), l.dev1.len(), l.dev2.len());
         }
-    };
-    let main_ctx = ["doc", "hash", "let", "codeblock", "arg", "math_i", "math_b", "mixed", "item", "content_ml"];
-    let levels = vec![
-        Level { name: "k1/dev<=1".into(), skeletons: sweep::skeletons(&model, &main_ctx, &[0, 1], &[Size::Short, Size::Medium]), dev1: model::forms(model::FORMS_ALL), dev2: vec![] },
-        Level { name: "k2/dev0".into(), skeletons: sweep::skeletons(&model, &main_ctx, &[2], &[Size::Short]), dev1: vec![], dev2: vec![] },
-    ];
-    let spec = SweepSpec {
-        model: &model,
-        levels,
-        extra: vec![],
-        policy: CfgPolicy::standard(160, &[2], &[4]),
-        wall_cap,
-        threads,
-        seed,
-    };
-    let res = sweep::run(&spec, &subject, oracle.as_ref());
-    if triage {
+        for l in &plan.extra {
+            println!("extra {:40} inputs={}", l.name, l.inputs.len());
+        }
+        return 0;
+    }
+    let subject = Real;
+    let spec = SweepSpec { model: &plan.model, levels: plan.levels, extra: plan.extra, policy: plan.policy, wall_cap: caps(thorough), threads, seed };
+    let res = sweep::run(&spec, &subject, plan.oracle.as_ref());
+    if mode == Mode::Triage {
         report::triage(&res.failures);
     }
     let out = Outcome {
@@ -113,9 +430,70 @@ fn run_check(id: &str, tier: Option<&str>, triage: bool) -> i32 {
         tier,
         seed,
         coverage: res.coverage,
-        assumptions: vec![],
+        assumptions: plan.assumptions,
         failures: res.failures,
         wall_s: start.elapsed().as_secs_f64(),
     };
-    report::finish(out, &|_| true)
+    let oracle = plan.oracle;
+    let policy = spec.policy.clone();
+    report::finish(out, &|kf: &KnownFinding| example_fails(&subject, oracle.as_ref(), &policy, kf))
+}
+
+/// Re-check the exact example of a known finding on the current tree.
+fn example_fails(subject: &dyn Subject, oracle: &dyn Oracle, policy: &CfgPolicy, kf: &KnownFinding) -> bool {
+    let Some(input) = kf.example.get("input").and_then(|v| v.as_str()) else { return false };
+    let root = tyv_model::syntax::parse(input);
+    if root.erroneous() {
+        return false;
+    }
+    let cfgs = policy.configs(subject, input);
+    let mut counters = (0, 0, 0);
+    let v = sweep::eval_input(subject, oracle, input, &root, &cfgs, |_| {}, &mut counters);
+    let want = kf.example.get("clause").and_then(|v| v.as_str());
+    v.fails.iter().any(|(f, _)| want.is_none_or(|w| w == f.clause))
+}
+
+fn replay(path: &str) -> i32 {
+    let Ok(s) = std::fs::read_to_string(path) else {
+        eprintln!("MACHINERY: cannot read {path}");
+        return 2;
+    };
+    let v: serde_json::Value = match serde_json::from_str(&s) {
+        Ok(v) => v,
+        Err(e) => {
+            eprintln!("MACHINERY: bad replay file: {e}");
+            return 2;
+        }
+    };
+    let property = v["property"].as_str().unwrap_or("");
+    let input = v["input"].as_str().unwrap_or("");
+    let Some(plan) = plan_for(property, false) else {
+        eprintln!("MACHINERY: replay of {property} is handled by its own engine");
+        return 2;
+    };
+    let subject = Real;
+    let root = tyv_model::syntax::parse(input);
+    if root.erroneous() {
+        println!("input no longer parses without errors");
+        return 2;
+    }
+    // the recorded configuration first, then the whole policy
+    let mut cfgs: Vec<Cfg> = vec![];
+    if let Ok(c) = serde_json::from_value::<Cfg>(v["cfg"].clone()) {
+        cfgs.push(c);
+    }
+    cfgs.extend(plan.policy.configs(&subject, input));
+    let mut counters = (0, 0, 0);
+    let verdict = sweep::eval_input(&subject, plan.oracle.as_ref(), input, &root, &cfgs, |_| {}, &mut counters);
+    println!("replay {property}: input={}", tyv_model::syntax::esc(input));
+    if verdict.fails.is_empty() {
+        println!("PASS: the property holds for this input under {} configurations", cfgs.len());
+        0
+    } else {
+        for (f, c) in &verdict.fails {
+            println!("FAIL clause={} cfg={} :: {}", f.clause, c.show(), tyv_model::syntax::esc(&f.detail));
+        }
+        println!("VIOLATION property={property} replay={path}");
+        1
+    }
 }
